@@ -24,5 +24,5 @@ U == {
 ExtListsAll == {<<"default">>, <<"rs">>, <<"rs", "txt">>, <<"RS">>, <<"bak">>}
 SourceDirsAll == {"rel", "dotrel", "abs", "updown", "hidden"}
 InvocationsAll == {<<"cfgdir", "bare">>, <<"cfgdir", "rel">>, <<"cfgdir", "abs">>, <<"parent", "rel">>, <<"parent", "abs">>,
-                   <<"root", "rel">>, <<"root", "abs">>}
+                   <<"root", "rel">>, <<"root", "abs">>, <<"cfgdir", "linkcfg">>, <<"parent", "linkcfg">>}
 =============================================================================
